@@ -285,7 +285,16 @@ func childC18(ctx *core.Ctx, raw []byte) {
 
 	mkRow := func(p, j int) Row {
 		v := (p*7+j)%50 + 1
-		return Row{"id": p*1000000 + j, "k": plainKeys[(p+j)%3], "v": v, "ts": baseTs + int64(j)*40}
+		// event time: blocks of 20 rows 40 ms apart, the next block 1.2 s after the last row of the previous one
+		// (the 1 s windows and sessions of the block before have fired and are still within their allowed
+		// lateness); every block sends two rows back into the previous block, which re-emit a fired window while
+		// the on-time rows around them keep the watermark moving
+		blk, off := int64(j/20), int64(j%20)
+		ts := baseTs + blk*1960 + off*40
+		if blk > 0 && (off == 3 || off == 11) {
+			ts = baseTs + (blk-1)*1960 + 19*40 + 100
+		}
+		return Row{"id": p*1000000 + j, "k": plainKeys[(p+j)%3], "v": v, "ts": ts}
 	}
 	switch b.Mode {
 	case "syncstop":
